@@ -652,6 +652,7 @@ func run(r *chk.Run) {
 	e2.RunScale(r, "wide-table")
 	e2.RunSchemaChange(r)
 	e2.RunNested(r)
+	e2.RunPartialImages(r)
 	r.SetExhaustive(true)
 }
 
@@ -671,6 +672,8 @@ func replay(kind string, input json.RawMessage) (bool, string) {
 		return e2.ReplaySchema(input)
 	case "nest":
 		return e2.ReplayNest(input)
+	case "partial":
+		return e2.ReplayPartial(input)
 	case "cell":
 		var c Case1
 		if err := json.Unmarshal(input, &c); err != nil {
